@@ -4,6 +4,9 @@
 #include "vstl_base.h"
 extern "C" float __verif_nondet_float(float lo, float hi);
 extern "C" void __verif_env_input_f(double v);
+extern "C" int __verif_choice(int n);
+// what the repository last handed to the solver as stopping criteria (read back by the C17 harness)
+inline float __verif_cg_tolerance = -1.0f; inline int __verif_cg_max_iterations = -1;
 namespace Eigen {
 enum { Lower = 1, Upper = 2 };
 template <class S> struct Triplet { int r_, c_; S v_; Triplet() : r_(0), c_(0), v_(0) {} Triplet(int r, int c, S v) : r_(r), c_(c), v_(v) {} int row() const { return r_; } int col() const { return c_; } S value() const { return v_; } };
@@ -12,6 +15,8 @@ template <class S, int R, int C> struct Matrix {
   Matrix() : n_(0), ext_(nullptr) {}
   template <class It> static Matrix Map(It p, long n) { Matrix m; m.n_ = (int)n; m.ext_ = p; return m; }
   Matrix& operator=(const Matrix& o) { if (ext_) { for (int i = 0; i < n_ && i < o.n_; ++i) ext_[i] = o.ext_ ? o.ext_[i] : o.d_[i]; } else { n_ = o.n_; for (int i = 0; i < n_; ++i) d_[i] = o.ext_ ? o.ext_[i] : o.d_[i]; } return *this; }
+  // not used by the pinned sources; modelled as one of a few positive magnitudes so that code dividing by it stays linear
+  S norm() const { int k = __verif_choice(3); return k == 0 ? (S)0.5f : (k == 1 ? (S)2.0f : (S)1024.0f); }
   Matrix(const Matrix& o) : n_(o.n_), ext_(nullptr) { for (int i = 0; i < n_; ++i) d_[i] = o.ext_ ? o.ext_[i] : o.d_[i]; }
 };
 template <class M> struct Map;
@@ -21,8 +26,8 @@ template <class M, int UpLo> struct ConjugateGradient {
   int n_;
   ConjugateGradient() : n_(0) {}
   void compute(const M& m) { n_ = m.r_; }
-  void setTolerance(float) {}
-  void setMaxIterations(int) {}
+  void setTolerance(float t) { __verif_cg_tolerance = t; }
+  void setMaxIterations(int n) { __verif_cg_max_iterations = n; }
   template <class A, class B> Matrix<float, -1, 1> solveWithGuess(const A& rhs, const B&) {
     Matrix<float, -1, 1> r; r.n_ = rhs.n_;
     for (int i = 0; i < rhs.n_; ++i) __verif_env_input_f((double)(rhs.ext_ ? rhs.ext_[i] : rhs.d_[i]));
